@@ -68,73 +68,173 @@ void _ZN5QXmpp7Private9ShadowRefISt7variantIJNS_11SendSuccessE10QXmppErrorEEE7re
 void _ZN13QXmppLoggable10logMessageEN11QXmppLogger11MessageTypeERK7QString(char *self, uint32_t type, char *msg) { }
 #endif
 
-/* ---- class-level model of QMap<unsigned, QXmppPacket>: ordered array with value semantics (what implicit sharing implements).
-   Elements are copied / destroyed with the REAL QXmppPacket copy constructor / destructor. ------------------------------------- */
+/* ---- class-level model of QMap<unsigned, QXmppPacket>: ordered SLOT array with value semantics (what implicit sharing implements).
+   Elements are copied / destroyed with the REAL QXmppPacket copy constructor / destructor.
+   Every slot is an object of its own (struct ent), the map holds the ordered array s[0..MCAP] of slot pointers.
+   Iterator semantics are Qt's node semantics: an iterator is the address of a slot object, and an element never leaves its slot object:
+     - erase() frees the slot in place (no shifting), so iterators to OTHER elements stay valid and it+1 cached before an erase is still right;
+     - insert() never moves an element: a key above all stored keys goes into slot hi, an existing key is overwritten in place, for a key
+       below the largest stored one a free slot object is rotated into the slot pointer array (elements stay put);
+     - end() is the fixed sentinel slot s[MCAP]: it compares "past" every element, including elements inserted after end() was taken;
+     - ++ / -- walk to the next / previous USED slot (slot index order == key order is the representation invariant).
+   Representation: slot i holds an element <=> i < hi && s[i]->used == 1 (hi = one past the highest slot ever filled since the last clear(); a
+   freed slot below hi is a hole; the flags of slots >= hi are don't-care and kept at 1 so that an arbitrary pre-state "slots 0..n-1 filled"
+   is symbolic in hi ONLY - begin()/++ then yield two-way choices (slot | end()), not chains over all slots).  s[MCAP]->used == 2: end sentinel.
+   Dereferencing end() or an erased element, and ++/-- of an iterator whose element was erased, are model limits (MODEL assertions: inconclusive).
+   n = number of elements.  Copies are deep and slot-wise (positions stay concrete).
+   NOT modelled (cannot be instantiated for QXmppPacket: no default constructor / operator==): operator[], take, value(key), key(), keys(value),
+   operator==; deprecated multi-map API (insertMulti, unite, uniqueKeys, values(key)); equal_range; construction from initializer_list / std::map.
+   Run as REAL inline code over the modelled primitives: first/last/firstKey/lastKey, iterator +,-,+=,-=, key_iterator / key-value iterators,
+   keys(), values() (these two need qt_list.c in the group's models), empty(), operator==(iterator, const_iterator). ---------------------------- */
 #ifdef HAVE_T_class_QXmppPacket
 typedef struct T_class_QXmppPacket PKT;
 #ifndef MCAP
 #define MCAP 4
 #endif
-struct ent { uint32_t key; PKT val; };
-struct amap { uint32_t n; struct ent e[MCAP + 1]; };
+struct amap;
+struct ent { uint32_t key; uint32_t used; uint32_t idx; struct amap *own; PKT val; };
+struct amap { uint32_t n, hi; struct ent *s[MCAP + 1]; };   /* every slot is an object of its own: a choice between slots is a choice between OBJECTS at offset 0 (field-sensitive in cbmc), not one object at a symbolic offset */
 #define AMP(self) (*(struct amap**)(self))
 static struct amap AM_ZERO;
-static struct amap *am_new(void) { struct amap *m = malloc(sizeof(struct amap)); ASSUME(m != 0); *m = AM_ZERO; return m; }
+#ifdef HAVE_T_struct_QXmpp__Private__ShadowState
+static struct T_struct_QXmpp__Private__ShadowState AM_BLANK_STATE;     /* never finished, no continuation, no value */
+/* payload of the blank image: a classified block that is no stanza (static reference count: never freed).  The harness view of an entry
+   that does not exist (vp_c09_map_val beyond the size) therefore reads as "wrong stanza" (property failure), not as a model limit */
+#define AM_BLANK(e) do { (e)->val.f0.f0.f0 = (char*)&AM_BLANK_STATE; (e)->val.f1.f0 = (char*)blank; } while (0)
+#else
+#define AM_BLANK(e) do { } while (0)
+#endif
+static struct ent ENT_ZERO;
+static struct amap *am_new(void) { struct amap *m = malloc(sizeof(struct amap)); ASSUME(m != 0); *m = AM_ZERO;
+  QAD *blank = c09_blk(K_OTHER, 0xfffffffeu); REF(blank) = (uint32_t)-1;
+  for (uint32_t i = 0; i <= MCAP; i++) { struct ent *e = malloc(sizeof(struct ent)); ASSUME(e != 0); *e = ENT_ZERO; e->idx = i; e->own = m; e->used = i == MCAP ? 2 : 1; m->s[i] = e;
+    /* a slot that holds no element (and the sentinel) carries a harmless packet image: symex dereferences every alternative of a merged
+       iterator value, also the infeasible "end()" one; a NULL promise there reads as an arbitrary continuation pointer (spurious re-entry) */
+    AM_BLANK(e); }
+  return m; }
+#define LIVE(m, i) ((i) < (m)->hi && (m)->s[i]->used == 1)
 static struct amap *AM(char *self) { return AMP(self); }
+#define AM_END(m) ((m)->s[MCAP])
 static void pk_copy(PKT *d, PKT *s) { F_vp_c09_pkt_copy((char*)d, (char*)s); }
 static void pk_kill(PKT *p) { F_vp_c09_pkt_destroy((char*)p); }
+/* next / previous used slot (the sentinel is "used"); ++end() stays at end(), --begin() stays at slot 0 (both undefined in Qt) */
+static struct ent *ent_next(struct ent *p) { struct amap *m = p->own; uint32_t i = p->idx;
+  for (uint32_t j = 0; j < MCAP; j++) { i++; if (i >= m->hi) break; if (m->s[i]->used == 1) return m->s[i]; } return AM_END(m); }
+static struct ent *ent_prev(struct ent *p) { struct amap *m = p->own; uint32_t i = p->idx; if (i > m->hi) i = m->hi;
+  for (uint32_t j = 0; j < MCAP; j++) { if (i == 0) break; i--; if (m->s[i]->used == 1) return m->s[i]; } return m->s[0]; }
+static struct ent *am_first(struct amap *m) { for (uint32_t i = 0; i < MCAP; i++) { if (i >= m->hi) break; if (m->s[i]->used == 1) return m->s[i]; } return AM_END(m); }
+/* i-th element in key order (harness view of the store) */
+static struct ent *am_nth(struct amap *m, uint32_t i) { uint32_t c = 0;
+  for (uint32_t s = 0; s < MCAP; s++) { if (m->s[s]->used == 1) { if (c == i) return s < m->hi ? m->s[s] : AM_END(m); c++; } } return AM_END(m); }
 uint32_t vp_c09_map_n(char *self) { return AM(self)->n; }
-uint32_t vp_c09_map_key(char *self, uint32_t i) { ASSERT(i < MCAP, "C09 model: map index"); return AM(self)->e[i].key; }
-char* vp_c09_map_val(char *self, uint32_t i) { ASSERT(i < MCAP, "C09 model: map index"); return (char*)&AM(self)->e[i].val; }
-void vp_c09_map_set(char *self, uint32_t i, uint32_t key, char *pkt) { ASSERT(i < MCAP, "C09 model: map index"); struct amap *m = AM(self); m->e[i].key = key; pk_copy(&m->e[i].val, (PKT*)pkt); }
-void vp_c09_map_setn(char *self, uint32_t n) { ASSERT(n <= MCAP, "C09 model: map size"); AM(self)->n = n; }
+uint32_t vp_c09_map_key(char *self, uint32_t i) { ASSERT(i < MCAP, "C09 model: map index"); return am_nth(AM(self), i)->key; }
+char* vp_c09_map_val(char *self, uint32_t i) { ASSERT(i < MCAP, "C09 model: map index"); return (char*)&am_nth(AM(self), i)->val; }
+/* pre-state construction: slot i := (key, copy of pkt); setn(n): exactly the slots 0..n-1 hold elements */
+void vp_c09_map_set(char *self, uint32_t i, uint32_t key, char *pkt) { ASSERT(i < MCAP, "C09 model: map index"); struct amap *m = AM(self); m->s[i]->key = key; pk_copy(&m->s[i]->val, (PKT*)pkt); }
+void vp_c09_map_setn(char *self, uint32_t n) { ASSERT(n <= MCAP, "C09 model: map size"); struct amap *m = AM(self); for (uint32_t i = 0; i < MCAP; i++) m->s[i]->used = 1; m->n = n; m->hi = n; }
 void _ZN4QMapIj11QXmppPacketEC2Ev(char *self) { AMP(self) = am_new(); }
-void _ZN4QMapIj11QXmppPacketE5clearEv(char *self) { struct amap *m = AM(self); for (uint32_t i = 0; i < MCAP; i++) { if (i >= m->n) break; pk_kill(&m->e[i].val); } m->n = 0; }
+void _ZN4QMapIj11QXmppPacketE5clearEv(char *self) { struct amap *m = AM(self); for (uint32_t i = 0; i < MCAP; i++) { if (i >= m->hi) break; if (m->s[i]->used == 1) pk_kill(&m->s[i]->val); } for (uint32_t i = 0; i < MCAP; i++) m->s[i]->used = 1; m->n = 0; m->hi = 0; }
 void _ZN4QMapIj11QXmppPacketED2Ev(char *self) { if (AMP(self)) { _ZN4QMapIj11QXmppPacketE5clearEv(self); AMP(self) = 0; } }
-void _ZN4QMapIj11QXmppPacketEC2ERKS1_(char *self, char *o) { struct amap *m = am_new(), *s = AM(o); AMP(self) = m;
-  for (uint32_t i = 0; i < MCAP; i++) { if (i >= s->n) break; m->e[i].key = s->e[i].key; pk_copy(&m->e[i].val, &s->e[i].val); } m->n = s->n; }
+/* into an EMPTY map (fresh or just cleared) */
+static void am_copy_into(struct amap *m, struct amap *s) { for (uint32_t i = 0; i < MCAP; i++) { if (i >= s->hi) break; m->s[i]->used = s->s[i]->used; if (s->s[i]->used == 1) { m->s[i]->key = s->s[i]->key; pk_copy(&m->s[i]->val, &s->s[i]->val); } } m->n = s->n; m->hi = s->hi; }
+void _ZN4QMapIj11QXmppPacketEC2ERKS1_(char *self, char *o) { struct amap *m = am_new(); AMP(self) = m; am_copy_into(m, AM(o)); }
 void _ZN4QMapIj11QXmppPacketEC2EOS1_(char *self, char *o) { AMP(self) = AMP(o); AMP(o) = am_new(); }
 void _ZN4QMapIj11QXmppPacketE4swapERS1_(char *self, char *o) { struct amap *t = AMP(self); AMP(self) = AMP(o); AMP(o) = t; }
 char* _ZN4QMapIj11QXmppPacketEaSEOS1_(char *self, char *o) { struct amap *t = AMP(self); AMP(self) = AMP(o); AMP(o) = t; return self; }
-char* _ZN4QMapIj11QXmppPacketEaSERKS1_(char *self, char *o) { if (AMP(self) != AMP(o)) { _ZN4QMapIj11QXmppPacketE5clearEv(self); struct amap *m = AM(self), *s = AM(o);
-  for (uint32_t i = 0; i < MCAP; i++) { if (i >= s->n) break; m->e[i].key = s->e[i].key; pk_copy(&m->e[i].val, &s->e[i].val); } m->n = s->n; } return self; }
+char* _ZN4QMapIj11QXmppPacketEaSERKS1_(char *self, char *o) { if (AMP(self) != AMP(o)) { _ZN4QMapIj11QXmppPacketE5clearEv(self); am_copy_into(AM(self), AM(o)); } return self; }
 void _ZN4QMapIj11QXmppPacketE6detachEv(char *self) { }
 void _ZN4QMapIj11QXmppPacketE13detach_helperEv(char *self) { }
+uint8_t _ZNK4QMapIj11QXmppPacketE10isDetachedEv(char *self) { return 1; }
+uint8_t _ZNK4QMapIj11QXmppPacketE12isSharedWithERKS1_(char *self, char *o) { return AMP(self) == AMP(o); }
+void _ZN4QMapIj11QXmppPacketE11setSharableEb(char *self, uint8_t on) { }
 uint8_t _ZNK4QMapIj11QXmppPacketE7isEmptyEv(char *self) { return AM(self)->n == 0; }
 uint32_t _ZNK4QMapIj11QXmppPacketE4sizeEv(char *self) { return AM(self)->n; }
-char* _ZN4QMapIj11QXmppPacketE5beginEv(char *self) { return (char*)&AM(self)->e[0]; }
-char* _ZNK4QMapIj11QXmppPacketE5beginEv(char *self) { return (char*)&AM(self)->e[0]; }
-char* _ZNK4QMapIj11QXmppPacketE10constBeginEv(char *self) { return (char*)&AM(self)->e[0]; }
-char* _ZN4QMapIj11QXmppPacketE3endEv(char *self) { struct amap *m = AM(self); return (char*)&m->e[m->n]; }
-char* _ZNK4QMapIj11QXmppPacketE3endEv(char *self) { struct amap *m = AM(self); return (char*)&m->e[m->n]; }
-char* _ZNK4QMapIj11QXmppPacketE8constEndEv(char *self) { struct amap *m = AM(self); return (char*)&m->e[m->n]; }
-char* _ZN4QMapIj11QXmppPacketE6insertERKjRKS0_(char *self, char *k, char *v) { struct amap *m = AM(self); uint32_t key = *(uint32_t*)k, pos = 0;
-  for (uint32_t i = 0; i < MCAP; i++) { if (i >= m->n) break; if (m->e[i].key < key) pos = i + 1; }
-  if (pos < m->n && m->e[pos].key == key) { pk_kill(&m->e[pos].val); pk_copy(&m->e[pos].val, (PKT*)v); return (char*)&m->e[pos]; }
-  ASSERT(m->n < MCAP, "C09 model: QMap capacity exceeded");
-  for (uint32_t i = MCAP; i > 0; i--) { if (i <= m->n && i > pos) m->e[i] = m->e[i - 1]; }
-  m->e[pos].key = key; pk_copy(&m->e[pos].val, (PKT*)v); m->n++; return (char*)&m->e[pos]; }
-char* _ZN4QMapIj11QXmppPacketE5eraseENS1_8iteratorE(char *self, char *it) { struct amap *m = AM(self); uint32_t pos = (uint32_t)((struct ent*)it - m->e);
-  ASSERT(pos < m->n, "C09 model: QMap::erase(end())"); pk_kill(&m->e[pos].val);
-  for (uint32_t i = 0; i < MCAP; i++) { if (i >= pos && i + 1 < m->n) m->e[i] = m->e[i + 1]; } m->n--; return (char*)&m->e[pos]; }
+uint32_t _ZNK4QMapIj11QXmppPacketE5countEv(char *self) { return AM(self)->n; }
+char* _ZN4QMapIj11QXmppPacketE5beginEv(char *self) { return (char*)am_first(AM(self)); }
+char* _ZNK4QMapIj11QXmppPacketE5beginEv(char *self) { return (char*)am_first(AM(self)); }
+char* _ZNK4QMapIj11QXmppPacketE10constBeginEv(char *self) { return (char*)am_first(AM(self)); }
+char* _ZNK4QMapIj11QXmppPacketE6cbeginEv(char *self) { return (char*)am_first(AM(self)); }
+char* _ZN4QMapIj11QXmppPacketE3endEv(char *self) { return (char*)AM_END(AM(self)); }
+char* _ZNK4QMapIj11QXmppPacketE3endEv(char *self) { return (char*)AM_END(AM(self)); }
+char* _ZNK4QMapIj11QXmppPacketE8constEndEv(char *self) { return (char*)AM_END(AM(self)); }
+char* _ZNK4QMapIj11QXmppPacketE4cendEv(char *self) { return (char*)AM_END(AM(self)); }
+/* insert / replace without ever moving an element.  A key above all stored keys is appended at slot hi.  General case (replace in place; a
+   key below the largest stored one: a free slot OBJECT is rotated into the pointer array at the right position - the elements themselves stay
+   where they are, iterators stay valid).  -DMAP_APPEND_ONLY=1 (per instance) turns everything but "append" into a model limit: the choice
+   between append and the general case depends on key comparisons, which symex cannot fold - after the merge hi / s[] / flags are symbolic
+   and every later traversal pays for it (measured on the re-entrancy instances: 160 s / 3 GB -> see spec_re.py). */
+static struct ent *am_fill(struct amap *m, struct ent *e, uint32_t key, PKT *v) { e->key = key; pk_copy(&e->val, v); e->used = 1; m->n++; return e; }
+static struct ent *am_insert(struct amap *m, uint32_t key, PKT *v) {
+#ifdef MAP_APPEND_ONLY
+  uint8_t above = 1;
+  for (uint32_t i = 0; i < MCAP; i++) { if (i >= m->hi) break; if (m->s[i]->used == 1 && m->s[i]->key >= key) above = 0; }
+  ASSERT(above, "C09 model: (MAP_APPEND_ONLY) QMap::insert of a key that is not above all stored keys");
+  ASSUME(above);
+#else
+  uint32_t eq = MCAP, pos = m->hi;
+  for (uint32_t i = MCAP; i > 0; i--) { if (i - 1 < m->hi && m->s[i - 1]->used == 1) { if (m->s[i - 1]->key == key) eq = i - 1; if (m->s[i - 1]->key > key) pos = i - 1; } }
+  if (eq < MCAP) { pk_kill(&m->s[eq]->val); pk_copy(&m->s[eq]->val, v); return m->s[eq]; }
+  if (pos < m->hi) {
+    ASSERT(m->hi < MCAP, "C09 model: QMap capacity exceeded");
+    struct ent *f = m->s[m->hi];                                   /* free slot object; rotate s[pos..hi] right by one */
+    for (uint32_t i = MCAP - 1; i > 0; i--) { if (i > pos && i <= m->hi) { m->s[i] = m->s[i - 1]; m->s[i]->idx = i; } }
+    for (uint32_t i = 0; i < MCAP; i++) { if (i == pos) m->s[i] = f; }
+    f->idx = pos; m->hi++;
+    return am_fill(m, f, key, v);
+  }
+#endif
+  ASSERT(m->hi < MCAP, "C09 model: QMap capacity exceeded");
+  struct ent *e = m->s[m->hi]; m->hi++;
+  return am_fill(m, e, key, v); }
+char* _ZN4QMapIj11QXmppPacketE6insertERKjRKS0_(char *self, char *k, char *v) { return (char*)am_insert(AM(self), *(uint32_t*)k, (PKT*)v); }
+char* _ZN4QMapIj11QXmppPacketE6insertENS1_14const_iteratorERKjRKS0_(char *self, char *hint, char *k, char *v) { return (char*)am_insert(AM(self), *(uint32_t*)k, (PKT*)v); }
+void _ZN4QMapIj11QXmppPacketE6insertERKS1_(char *self, char *o) { struct amap *m = AM(self), *s = AM(o); if (m == s) return;
+  for (uint32_t i = 0; i < MCAP; i++) { if (LIVE(s, i)) am_insert(m, s->s[i]->key, &s->s[i]->val); } }
+/* erase: Qt returns end() for erase(end()); the slot is freed in place, the result is the next element (or end()) */
+static struct ent *am_erase(struct amap *m, struct ent *p) { if (p->used == 2) return p;
+  ASSERT(p->idx < m->hi && p->used == 1, "C09 model: QMap::erase of an iterator whose element was already erased");
+  pk_kill(&p->val); p->used = 0; m->n--; return ent_next(p); }
+char* _ZN4QMapIj11QXmppPacketE5eraseENS1_8iteratorE(char *self, char *it) { return (char*)am_erase(AM(self), (struct ent*)it); }
 void _ZN4QMapIj11QXmppPacketE8iteratorC2EP8QMapNodeIjS0_E(char *it, char *n) { *(char**)it = n; }
 void _ZN4QMapIj11QXmppPacketE14const_iteratorC2EPK8QMapNodeIjS0_E(char *it, char *n) { *(char**)it = n; }
 void _ZN4QMapIj11QXmppPacketE14const_iteratorC2ERKNS1_8iteratorE(char *it, char *o) { *(char**)it = *(char**)o; }
-char* _ZN4QMapIj11QXmppPacketE8iteratorppEv(char *it) { *(struct ent**)it += 1; return it; }
-char* _ZN4QMapIj11QXmppPacketE14const_iteratorppEv(char *it) { *(struct ent**)it += 1; return it; }
-char* _ZN4QMapIj11QXmppPacketE8iteratormmEv(char *it) { *(struct ent**)it -= 1; return it; }
-char* _ZN4QMapIj11QXmppPacketE14const_iteratormmEv(char *it) { *(struct ent**)it -= 1; return it; }
-static struct ent *am_find(struct amap *m, uint32_t key) { for (uint32_t i = 0; i < MCAP; i++) { if (i >= m->n) break; if (m->e[i].key == key) return &m->e[i]; } return &m->e[m->n]; }
+/* ++ / -- of an iterator whose element was erased reads a freed node in Qt: model limit, never a silent "next element" */
+static struct ent *it_chk(struct ent *p) { ASSERT(p->used == 2 || (p->used == 1 && p->idx < p->own->hi), "C09 model: QMap iterator advanced after its element was erased"); return p; }
+#define ent_next_it(p) ent_next(it_chk(p))
+#define ent_prev_it(p) ent_prev(it_chk(p))
+char* _ZN4QMapIj11QXmppPacketE8iteratorppEv(char *it) { *(struct ent**)it = ent_next_it(*(struct ent**)it); return it; }
+char* _ZN4QMapIj11QXmppPacketE14const_iteratorppEv(char *it) { *(struct ent**)it = ent_next_it(*(struct ent**)it); return it; }
+char* _ZN4QMapIj11QXmppPacketE8iteratormmEv(char *it) { *(struct ent**)it = ent_prev_it(*(struct ent**)it); return it; }
+char* _ZN4QMapIj11QXmppPacketE14const_iteratormmEv(char *it) { *(struct ent**)it = ent_prev_it(*(struct ent**)it); return it; }
+char* _ZN4QMapIj11QXmppPacketE8iteratorppEi(char *it, uint32_t d) { struct ent *o = *(struct ent**)it; *(struct ent**)it = ent_next_it(o); return (char*)o; }
+char* _ZN4QMapIj11QXmppPacketE14const_iteratorppEi(char *it, uint32_t d) { struct ent *o = *(struct ent**)it; *(struct ent**)it = ent_next_it(o); return (char*)o; }
+char* _ZN4QMapIj11QXmppPacketE8iteratormmEi(char *it, uint32_t d) { struct ent *o = *(struct ent**)it; *(struct ent**)it = ent_prev_it(o); return (char*)o; }
+char* _ZN4QMapIj11QXmppPacketE14const_iteratormmEi(char *it, uint32_t d) { struct ent *o = *(struct ent**)it; *(struct ent**)it = ent_prev_it(o); return (char*)o; }
+static struct ent *am_find(struct amap *m, uint32_t key) { for (uint32_t i = 0; i < MCAP; i++) { if (i >= m->hi) break; if (m->s[i]->used == 1 && m->s[i]->key == key) return m->s[i]; } return AM_END(m); }
+/* first element with key >= k (strict = 0) resp. key > k (strict = 1), else end() */
+static struct ent *am_bound(struct amap *m, uint32_t key, int strict) { struct ent *r = AM_END(m);
+  for (uint32_t i = MCAP; i > 0; i--) { struct ent *p = m->s[i - 1]; if (i - 1 < m->hi && p->used == 1 && (strict ? p->key > key : p->key >= key)) r = p; } return r; }
 char* _ZN4QMapIj11QXmppPacketE4findERKj(char *self, char *k) { return (char*)am_find(AM(self), *(uint32_t*)k); }
 char* _ZNK4QMapIj11QXmppPacketE4findERKj(char *self, char *k) { return (char*)am_find(AM(self), *(uint32_t*)k); }
 char* _ZNK4QMapIj11QXmppPacketE9constFindERKj(char *self, char *k) { return (char*)am_find(AM(self), *(uint32_t*)k); }
-uint8_t _ZNK4QMapIj11QXmppPacketE8containsERKj(char *self, char *k) { struct amap *m = AM(self); return am_find(m, *(uint32_t*)k) != &m->e[m->n]; }
-char* _ZNK4QMapIj11QXmppPacketE8iterator3keyEv(char *it) { return (char*)&(*(struct ent**)it)->key; }
-char* _ZNK4QMapIj11QXmppPacketE14const_iterator3keyEv(char *it) { return (char*)&(*(struct ent**)it)->key; }
-char* _ZNK4QMapIj11QXmppPacketE8iterator5valueEv(char *it) { return (char*)&(*(struct ent**)it)->val; }
-char* _ZNK4QMapIj11QXmppPacketE8iteratordeEv(char *it) { return (char*)&(*(struct ent**)it)->val; }
-char* _ZNK4QMapIj11QXmppPacketE8iteratorptEv(char *it) { return (char*)&(*(struct ent**)it)->val; }
-char* _ZNK4QMapIj11QXmppPacketE14const_iteratordeEv(char *it) { return (char*)&(*(struct ent**)it)->val; }
+char* _ZN4QMapIj11QXmppPacketE10lowerBoundERKj(char *self, char *k) { return (char*)am_bound(AM(self), *(uint32_t*)k, 0); }
+char* _ZNK4QMapIj11QXmppPacketE10lowerBoundERKj(char *self, char *k) { return (char*)am_bound(AM(self), *(uint32_t*)k, 0); }
+char* _ZN4QMapIj11QXmppPacketE10upperBoundERKj(char *self, char *k) { return (char*)am_bound(AM(self), *(uint32_t*)k, 1); }
+char* _ZNK4QMapIj11QXmppPacketE10upperBoundERKj(char *self, char *k) { return (char*)am_bound(AM(self), *(uint32_t*)k, 1); }
+uint8_t _ZNK4QMapIj11QXmppPacketE8containsERKj(char *self, char *k) { struct amap *m = AM(self); return am_find(m, *(uint32_t*)k) != AM_END(m); }
+uint32_t _ZNK4QMapIj11QXmppPacketE5countERKj(char *self, char *k) { struct amap *m = AM(self); return am_find(m, *(uint32_t*)k) != AM_END(m) ? 1 : 0; }
+uint32_t _ZN4QMapIj11QXmppPacketE6removeERKj(char *self, char *k) { struct amap *m = AM(self); struct ent *p = am_find(m, *(uint32_t*)k); if (p == AM_END(m)) return 0; am_erase(m, p); return 1; }
+void _ZNK4QMapIj11QXmppPacketE5valueERKjRKS0_(char *ret, char *self, char *k, char *dflt) { struct amap *m = AM(self); struct ent *p = am_find(m, *(uint32_t*)k); pk_copy((PKT*)ret, p == AM_END(m) ? (PKT*)dflt : &p->val); }
+/* dereference: only of a live element (end() and erased elements have no key / value in Qt either) */
+static struct ent *ent_live(char *it) { struct ent *p = *(struct ent**)it; ASSERT(p->used == 1 && p->idx < p->own->hi, "C09 model: QMap iterator dereferenced at end() or at an erased element"); return p; }
+char* _ZNK4QMapIj11QXmppPacketE8iterator3keyEv(char *it) { return (char*)&ent_live(it)->key; }
+char* _ZNK4QMapIj11QXmppPacketE14const_iterator3keyEv(char *it) { return (char*)&ent_live(it)->key; }
+char* _ZNK4QMapIj11QXmppPacketE8iterator5valueEv(char *it) { return (char*)&ent_live(it)->val; }
+char* _ZNK4QMapIj11QXmppPacketE8iteratordeEv(char *it) { return (char*)&ent_live(it)->val; }
+char* _ZNK4QMapIj11QXmppPacketE8iteratorptEv(char *it) { return (char*)&ent_live(it)->val; }
+char* _ZNK4QMapIj11QXmppPacketE14const_iterator5valueEv(char *it) { return (char*)&ent_live(it)->val; }
+char* _ZNK4QMapIj11QXmppPacketE14const_iteratordeEv(char *it) { return (char*)&ent_live(it)->val; }
+char* _ZNK4QMapIj11QXmppPacketE14const_iteratorptEv(char *it) { return (char*)&ent_live(it)->val; }
 uint8_t _ZNK4QMapIj11QXmppPacketE8iteratoreqERKS2_(char *a, char *b) { return *(char**)a == *(char**)b; }
 uint8_t _ZNK4QMapIj11QXmppPacketE8iteratorneERKS2_(char *a, char *b) { return *(char**)a != *(char**)b; }
 uint8_t _ZNK4QMapIj11QXmppPacketE14const_iteratoreqERKS2_(char *a, char *b) { return *(char**)a == *(char**)b; }
